@@ -239,6 +239,7 @@ structure State where
   startupRaised : Bool            -- the startup activity raised (a startup handler failed for good)
   cleanupBegun : Bool
   rootFailed : Bool               -- some root task ended with an exception
+  hungFailed : Bool               -- some HUNG task (daemon, orphaned helper) ended with an exception: re-raised as well
 
 def initSt : Task → TS
   | .root r => if r.guarded then .waitingFlag else .running
@@ -253,7 +254,7 @@ def init : State :=
     sc := .init, rt := .waiting, stopFlagSet := false, waiter := true, orphans := 0, killed := false,
     orchErr := false, t0 := none, exitAt := none, result := none,
     acts := 0, startupDone := false, startupFailed := false, startupRaised := false, cleanupBegun := false,
-    rootFailed := false }
+    rootFailed := false, hungFailed := false }
 
 inductive Label where
   | delay (n : Nat)
@@ -293,6 +294,7 @@ inductive Label where
   | act (a : Actor)
   -- run_tasks
   | orchAbandon
+  | hungFail
   | rtStopRoots
   | rtCancel
   | rtHungWait
@@ -749,6 +751,10 @@ def step (cfg : Cfg) (s : State) : Label → Option State
         ∧ s.creq (.root .orchestrator) = true then
       some { s with abandoned := true, creq := upd s.creq (.root .orchestrator) false }
     else none
+  | .hungFail =>
+    -- a task that is not a root task ends with an exception (e.g. the `stopped.wait(n)` helper of a daemon that is cancelled
+    -- as a hung task): `run_tasks` re-raises the errors of the hung tasks too
+    if s.rt ≠ .exited then some { s with hungFailed := true } else none
   | .rtStopRoots =>
     if s.rt = .waiting ∧ anyRootEnded s = true then
       some { s with rt := .stoppingRoots, creq := cancelRootsV cfg s, t0 := some s.now }
@@ -772,7 +778,7 @@ def step (cfg : Cfg) (s : State) : Label → Option State
     if hungLive s = false then
       match s.rt with
       | .stoppingHung =>
-        if r = (if s.rootFailed then .raised else .returned) then
+        if r = (if s.rootFailed || s.hungFailed then .raised else .returned) then
           some { s with rt := .exited, exitAt := some s.now, result := some r }
         else none
       | .cStoppingHung =>
